@@ -44,6 +44,10 @@ json.dump([{"id": r[0], "kind": r[1], "status": r[2], "rules": r[3], "checks": r
 cat = json.load(open("/verif/mutants/catalogue.json"))
 bad = 0
 for iid, kind, status, rules, pids, edit, exp in rows:
+    if kind == "benign-unsupported":
+        if pids or status != "inconclusive":
+            print("UNSUPPORTED VARIANT NOT INCONCLUSIVE", iid, status, rules, pids, file=sys.stderr); bad += 1
+        continue
     if kind.startswith("benign") and (pids or not status.startswith("analysed")):
         print("BENIGN ALARM", iid, status, rules, pids, file=sys.stderr); bad += 1
     if kind == "defect":
